@@ -143,7 +143,7 @@ func init() {
 
 	drivers["command"] = func(seed int64, n int, emit func(any)) error {
 		rng := rand.New(rand.NewSource(seed))
-		lower := []rune("abz09-_.éßλж日")
+		lower := []rune("abz09-_.éßλж日 \t")
 		// upper-case by the Unicode standard: general category Lu or the Other_Uppercase property (roman numerals,
 		// circled capitals); title-case letters (Lt) are neither and are left out (the property does not decide them)
 		upper := []rune("ABZÉΛЖⅠⅫⒶⓏ")
@@ -174,6 +174,19 @@ func init() {
 			return s
 		}
 		charsOf := func(s string) []string { return chars(s) }
+		// a command built as valid that the real parser refuses is itself a recorded Parse event (the trace
+		// specification judges it), not a failure of the driver
+		parseEvent := func(s string) {
+			var up []bool
+			for _, r := range s {
+				up = append(up, unicode.IsUpper(r) || unicode.Is(unicode.Other_Uppercase, r))
+			}
+			if up == nil {
+				up = []bool{}
+			}
+			got, c := parseOutcome(s)
+			emit(map[string]any{"ev": "Parse", "text": charsOf(s), "up": up, "ok": got == "ok", "same": c.String() == s, "sentinel": got})
+		}
 		for i := 0; i < n; i++ {
 			switch rng.Intn(4) {
 			case 0: // Parse on arbitrary nearly-valid text
@@ -189,6 +202,14 @@ func init() {
 					s = string(r)
 				case 3:
 					s = ""
+				case 4:
+					// white space around an otherwise valid command is part of the text
+					ws := []string{" ", "\t", "\n", "\u00a0", "\r\n"}[rng.Intn(5)]
+					if rng.Intn(2) == 0 {
+						s = ws + s
+					} else {
+						s += ws
+					}
 				}
 				var up []bool
 				for _, r := range s {
@@ -217,14 +238,17 @@ func init() {
 				ca, err1 := command.Parse(a)
 				cb, err2 := command.Parse(b)
 				if err1 != nil || err2 != nil {
-					return fmt.Errorf("driver built an invalid command %q %q: %v %v", a, b, err1, err2)
+					parseEvent(a)
+					parseEvent(b)
+					continue
 				}
 				emit(map[string]any{"ev": "Covers", "c": charsOf(a), "o": charsOf(b), "res": ca.Covers(cb)})
 			case 2:
 				a := validCmd(4)
 				ca, err := command.Parse(a)
 				if err != nil {
-					return fmt.Errorf("driver built an invalid command %q: %v", a, err)
+					parseEvent(a)
+					continue
 				}
 				segs := [][]string{}
 				for _, s := range ca.Segments() {
@@ -235,7 +259,8 @@ func init() {
 				a := validCmd(3)
 				ca, err := command.Parse(a)
 				if err != nil {
-					return fmt.Errorf("driver built an invalid command %q: %v", a, err)
+					parseEvent(a)
+					continue
 				}
 				var ss []string
 				segs := [][]string{}
